@@ -98,9 +98,15 @@ func propTable() map[string]*PropSpec {
 		c.RequireReach = []string{"C19.view_ge_71", "C19.view_32"}
 		g := rc("C19_Guards", "services/electiontrigger", "C19_Guards", nil)
 		g.RequireReach = []string{"C19.guards.done"}
-		t["C19"] = &PropSpec{ID: "C19", Quick: []RunConfig{c, g}, Thorough: []RunConfig{c, g},
+		var st19 []RunConfig
+		for _, nv := range []int{1, 0} {
+			sc := rc(fmt.Sprintf("C19_StaleTrigger/by_new_view=%d", nv), ".", "C19_StaleTrigger", map[string]int{"by_new_view": nv})
+			sc.RequireReach = []string{"C19.stale.done", "C19.current.done"}
+			st19 = append(st19, sc)
+		}
+		t["C19"] = &PropSpec{ID: "C19", Quick: append([]RunConfig{c, g}, st19...), Thorough: append([]RunConfig{c, g}, st19...),
 			Assumptions: []string{"base timeout in [1ns, 2^62ns]", "math.Pow(2,y) summary: exact (native) for concrete y; >= 2^64 or +Inf for symbolic y >= 64"},
-			Bounds:      []string{"views 0..70 each as a concrete case, views 71..2^64-1 as one symbolic class; base fully symbolic", "guards: one trigger object, symbolic positions (views 0..3), the sequence arm / same-pair re-arm / expire+deliver / Stop / re-arm same pair / arm + (expire unread)? + re-arm other pair / Stop, against ghost timers (time.AfterFunc recorded, fired by the harness; natively real 1 ms timers)"},
+			Bounds:      []string{"views 0..70 each as a concrete case, views 71..2^64-1 as one symbolic class; base fully symbolic", "consumer side: a stale trigger (symbolic position, callback of the superseded registration) read by one iteration of the real WorkerLoop.Run after the node left view 0 by NEW_VIEW or by timeout is not acted upon; the current one is", "guards: one trigger object, symbolic positions (views 0..3), the sequence arm / same-pair re-arm / expire+deliver / Stop / re-arm same pair / arm + (expire unread)? + re-arm other pair / Stop, against ghost timers (time.AfterFunc recorded, fired by the harness; natively real 1 ms timers)"},
 			Outside:     []string{"the timer firing concurrently with Stop / RegisterOnElection, 'not before the timeout', delivery latency, a reader that shows up only later: properties of the Go runtime timer and scheduler"},
 		}
 	}
